@@ -1363,7 +1363,7 @@ def run(ctx):
     # point of the drain
     ctx.log('F: shared queue, disconnection during the drain')
     multi_cases = [multi_from_json(o['replay']) for o in load_corpus() if o.get('replay', {}).get('kind') == 'multi']
-    for _ in range(ctx.n(5, 60)):
+    for _ in range(ctx.n(5, 40)):
         cfg, total = gen_multi_config(rng)
         for cut in multi_cuts(total, 8 if ctx.quick() else 14, rng):
             multi_cases.append(dict(cfg, cut=cut))
